@@ -182,6 +182,19 @@ pub struct Evidence {
     pub assumptions: Vec<String>,
 }
 
+static DIGESTS: std::sync::Mutex<Vec<(u64, u64)>> = std::sync::Mutex::new(Vec::new());
+
+/// Remember the digest of run `run` (written out by `finish` when VF_DIGEST_OUT is set).
+pub fn record_digest(run: u64, digest: u64) {
+    DIGESTS.lock().unwrap().push((run, digest));
+}
+
+pub fn hash_str(s: &str) -> u64 {
+    let mut f = simos::tracer::Fnv::new();
+    f.write(s.as_bytes());
+    f.finish()
+}
+
 /// Print the outcome lines, write evidence, return the process exit code.
 pub fn finish(
     cfg: &Cfg,
@@ -189,6 +202,12 @@ pub fn finish(
     violations: Vec<Violation>,
     started: std::time::Instant,
 ) -> Result<i32, Harness> {
+    if let Some(p) = std::env::var_os("VF_DIGEST_OUT") {
+        let mut d = DIGESTS.lock().unwrap().clone();
+        d.sort();
+        let text: String = d.iter().map(|(r, h)| format!("{r} {h:016x}\n")).collect();
+        std::fs::write(p, text)?;
+    }
     let findings = load_findings(cfg)?;
     let mut code = 0;
     let mut known_printed = std::collections::BTreeSet::new();
@@ -268,6 +287,9 @@ pub fn finish(
 /// What one case of an in-process check reports back from its worker process.
 #[derive(Clone, Debug, Default, Serialize, Deserialize)]
 pub struct CaseOut {
+    /// hash of everything observed in this case (determinism self-test)
+    #[serde(default)]
+    pub digest: u64,
     pub viol: Option<Violation>,
     pub tally: BTreeMap<String, u64>,
     /// keys for counting distinct non-trivial cases
